@@ -71,6 +71,10 @@ type chRun struct {
 	preExcPrim  *goja.Exception
 	preExcRet   *goja.Exception // the one the iterators' return() methods panic with
 	preGo       *goja.Object
+	preTypeErr  *goja.Object
+	preErr      *goja.Object
+	jobGo       *goja.Object
+	jobGoErr    error
 	preGoErr    error
 	customErr   *chCustomErr
 	foreignVal  interface{}
@@ -192,6 +196,9 @@ func (r *chRun) match(p *chPay, v goja.Value) (msg string) {
 		if e != p.goErr {
 			return "the GoError's 'value' is not the Go error the native frame returned"
 		}
+		if p.mustBe != nil && p.mustBe != v {
+			return "the value is not the GoError object the native frame panicked with"
+		}
 	case pkWrapJS:
 		if o.ClassName() != "Error" {
 			return "the value is not an Error object"
@@ -205,6 +212,15 @@ func (r *chRun) match(p *chPay, v goja.Value) (msg string) {
 	}
 	p.val = v
 	return ""
+}
+
+// chMatchRule: the value is the right kind of object but the Go error behind the GoError is lost or wrong: that is the
+// errors.Is/As/Unwrap clause of the property, not the identity clause.
+func chMatchRule(rule, msg string) string {
+	if strings.Contains(msg, "the GoError's 'value'") || strings.Contains(msg, "the GoError has no 'value'") {
+		return "errors-is-as"
+	}
+	return rule
 }
 
 // chSpine lists the *Exceptions found in the Unwrap chain of err (depth first, in order); ok=false if the chain does
@@ -271,7 +287,7 @@ func (r *chRun) checkErr(where string, err error, p *chPay, bare bool, res func(
 			return
 		}
 		if m := r.match(p, ex.Value()); m != "" {
-			r.fail("host-value-identity", "%s: Exception.Value(): %s", where, m)
+			r.fail(chMatchRule("host-value-identity", m), "%s: Exception.Value(): %s", where, m)
 			return
 		}
 		if len(spine) == 0 || spine[0] != ex {
@@ -454,6 +470,21 @@ func (r *chRun) registerFrame(k int) {
 	switch f.kind {
 	case cnFunc:
 		rt.Set(name, func(goja.FunctionCall) goja.Value { return panicStyle() })
+	case cnFuncGoError:
+		rt.Set(name, func(goja.FunctionCall) goja.Value {
+			v, err := r.via(k, false, func() (goja.Value, error) { return r.callNext(k) })
+			if err != nil {
+				if _, isEx := err.(*goja.Exception); !isEx {
+					panic(err) // uncatchable conditions are handed on as they are (wrapping them in a GoError would make them catchable)
+				}
+				o := rt.NewGoError(err)
+				if q := r.m.made[k]; q != nil {
+					q.goErr, q.mustBe = err, o
+				}
+				panic(o)
+			}
+			return v
+		})
 	case cnReflect:
 		rt.Set(name, func(_ goja.Value) (goja.Value, error) {
 			return r.via(k, false, func() (goja.Value, error) { return r.callNext(k) })
@@ -652,7 +683,7 @@ func (r *chRun) registerRecorders() {
 		// what e must be: the very payload the model carries past this frame
 		if st := r.m.in[k]; st.kind == csThrow {
 			if m := r.match(st.p, e); m != "" {
-				r.fail("catch-identity", "catch block of frame %d (%s): %s", k, chKindNames[r.frames[k-1].kind], m)
+				r.fail(chMatchRule("catch-identity", m), "catch block of frame %d (%s): %s", k, chKindNames[r.frames[k-1].kind], m)
 			}
 		}
 		// a catch block that runs although nothing catchable arrives shows up as an event-log mismatch / prefix violation
@@ -678,7 +709,7 @@ func (r *chRun) registerRecorders() {
 	})
 	rt.Set("REG", func(call goja.FunctionCall) goja.Value {
 		r.ev(r.segOf[r.n+1], "R")
-		if len(call.Arguments) > 0 && r.rootPay != nil && r.payload != cpJsEarlierGoError {
+		if len(call.Arguments) > 0 && r.rootPay != nil && !chPayloadPreCreated(r.payload) {
 			r.rootPay.val = call.Argument(0)
 		}
 		if chPayloadJS(r.payload) {
@@ -758,6 +789,26 @@ func (r *chRun) prepareValues() {
 	r.preExcPrim = err.(*goja.Exception)
 	r.preGoErr = fmt.Errorf("pre: %w", chSentA)
 	r.preGo = rt.NewGoError(r.preGoErr)
+	// further Error objects made while the VM call stack is empty
+	r.preTypeErr = rt.NewTypeError("made by the host while idle")
+	rt.Set("PRETE", r.preTypeErr)
+	if o, nerr := rt.New(rt.Get("Error"), rt.ToValue("made by the host while idle")); nerr == nil {
+		r.preErr = o
+	} else {
+		panic(&chHarnessBug{"New(Error): " + nerr.Error()})
+	}
+	rt.Set("PREER", r.preErr)
+	// ... and by goja itself for a reflect-wrapped native that fails while it runs as a promise reaction job
+	r.jobGoErr = fmt.Errorf("job: %w", chSentA)
+	rt.Set("chJobFails", func() error { return r.jobGoErr })
+	if _, jerr := rt.RunString("var SAVEDJOBERR; Promise.resolve().then(chJobFails).catch(function(e){ SAVEDJOBERR = e; }); 0"); jerr != nil {
+		panic(&chHarnessBug{"job setup: " + jerr.Error()})
+	}
+	if o, ok := rt.Get("SAVEDJOBERR").(*goja.Object); ok && rt.InstanceOf(o, r.goErrorCtor) {
+		r.jobGo = o
+	} else {
+		panic(&chHarnessBug{"the promise job did not leave a GoError behind"})
+	}
 	rt.Set("PREGO", r.preGo)
 	r.customErr = &chCustomErr{code: 7}
 	r.intrVal = &intrPayload{id: 14}
@@ -891,13 +942,21 @@ func (r *chRun) rootState() chState {
 	case chPayloadJS(p):
 		classes := map[int]string{cpJsNumber: "number", cpJsString: "string", cpJsBoolean: "boolean", cpJsNull: "null", cpJsUndefined: "undefined",
 			cpJsSymbol: "symbol", cpJsBigInt: "bigint", cpJsObject: "[Object]", cpJsArray: "[Array]", cpJsFunction: "[Function]", cpJsError: "[Error]",
-			cpJsTypeError: "[Error]", cpJsCustomError: "[Error]", cpJsFrozen: "[Object]", cpJsProxy: "[Object]", cpJsEarlierGoError: "[Error]"}
+			cpJsTypeError: "[Error]", cpJsCustomError: "[Error]", cpJsFrozen: "[Object]", cpJsProxy: "[Object]", cpJsEarlierGoError: "[Error]",
+			cpJsIdleTypeError: "[Error]", cpJsIdleError: "[Error]", cpJsJobGoError: "[Error]"}
 		pay := known(classes[p], nil) // bound by REG at the throw site
 		st := chState{kind: csThrow, p: pay, strictTop: true, someTop: true}
-		if p == cpJsEarlierGoError {
+		// Error objects made while the VM call stack was empty (by the host while idle, by a native running as a promise job)
+		// have an empty creation stack: thrown by script, the stack is that of the throw site, as for any other value
+		switch p {
+		case cpJsEarlierGoError:
 			pay.val, pay.hasGo, pay.goErr, pay.isA = r.preGo, true, r.preGoErr, true
-			// its stack is that of the earlier NewGoError call, made by the host while no script was running: empty
-			st.strictTop, st.someTop = false, false
+		case cpJsIdleTypeError:
+			pay.val = r.preTypeErr
+		case cpJsIdleError:
+			pay.val = r.preErr
+		case cpJsJobGoError:
+			pay.val, pay.hasGo, pay.goErr, pay.isA = r.jobGo, true, r.jobGoErr, true
 		}
 		r.rootPay = pay
 		return st
@@ -986,7 +1045,7 @@ var chJsThrowExpr = map[int]string{
 	cpJsNumber: "42", cpJsString: `"boom"`, cpJsBoolean: "false", cpJsNull: "null", cpJsUndefined: "undefined", cpJsSymbol: `Symbol("s")`,
 	cpJsBigInt: "12345678901234567890n", cpJsObject: "{a: 1}", cpJsArray: "[1, 2]", cpJsFunction: "function(){}", cpJsError: `new Error("E")`,
 	cpJsTypeError: `new TypeError("T")`, cpJsCustomError: `new MyErr("M")`, cpJsFrozen: "Object.freeze({z: 1})", cpJsProxy: "new Proxy({}, {})",
-	cpJsEarlierGoError: "PREGO",
+	cpJsEarlierGoError: "PREGO", cpJsIdleTypeError: "PRETE", cpJsIdleError: "PREER", cpJsJobGoError: "SAVEDJOBERR",
 }
 
 // chScript renders the chain as script text, one frame per line. Returns the text and the line of the raiser.
